@@ -445,6 +445,49 @@ def ios_members_unnumbered(ctx: Ctx, rep: Report, rid: str = "R02.10") -> None:
         rep.violation("AddressAg.platform.setter", "paths ending on ios", "no normal path of the setter is feasible for platform ios", where(st))
 
 
+def members_not_rebuilt_before_conversion(ctx: Ctx, rep: Report, rid: str = "R02.15") -> None:
+    """A platform setter that converts its members in a loop does not re-assign the member list between storing the new
+    platform and that loop: the items setter stamps the container's platform on every adopted entry WITHOUT converting
+    it, so a split of the ports (which re-assigns `self.items`) that runs when `_platform` already holds the target
+    marks IOS-spelled entries as NX-OS; the blocks then re-read them from text in the wrong spelling.  Before the store
+    (the stamp is the old platform) and after the loop (every member is converted) the re-assignment is harmless."""
+    rep.rule(rid)
+    n = 0
+    for cls in ctx.prog.classes.values():
+        st = cls.setters.get("platform")
+        if st is None:
+            continue
+        cfg = ctx.cfg(st)
+        loops = [x for x in cfg.live if x.kind == "for" and isinstance(x.ast.iter, ast.Attribute) and src(x.ast.iter.value) == "self" and x.ast.iter.attr.lstrip("_") == "items"]
+        stores = [x for x in cfg.live if x.kind == "stmt" and isinstance(x.ast, (ast.Assign, ast.AnnAssign)) and any(isinstance(t, ast.Attribute) and src(t) == "self._platform" for t in (x.ast.targets if isinstance(x.ast, ast.Assign) else [x.ast.target]) for t in ([t] if not isinstance(t, ast.Tuple) else t.elts))]
+        if not loops or not stores:
+            continue
+        n += 1
+        rep.instance()
+        bad = None
+        for s_ in stores:
+            between = cfg.reachable(s_, avoid=lambda x: x in loops, labels_avoid=("exc",))
+            # only what can still reach the conversion loop matters
+            for x in between:
+                if x is s_ or x.ast is None or x.kind not in ("stmt", "cond"):
+                    continue
+                if not any(lp in cfg.reachable(x, labels_avoid=("exc",)) for lp in loops):
+                    continue
+                for y in ast.walk(x.ast):
+                    g = None
+                    if isinstance(y, ast.Call) and isinstance(y.func, ast.Attribute) and src(y.func.value) == "self":
+                        g = cls.lookup_method(y.func.attr)
+                    elif isinstance(y, ast.Attribute) and isinstance(y.ctx, ast.Store) and src(y.value) == "self" and y.attr == "items":
+                        bad = (x, y)
+                    if g is not None and g is not st and "items" in {a.lstrip("_") for a, _k in ctx.effects.self_writes(g, cls)}:
+                        bad = (x, y)
+        if bad is not None:
+            rep.violation(st.qualname, snippet(bad[1], 50), f"`{snippet(bad[1], 30)}` re-assigns the member list after the new platform is stored and before the members are converted: the items setter stamps the new platform on entries whose fields still speak the old one, and the blocks re-read them from text in the old platform's spelling", where(st, bad[0].ast), inp="Acl('ip access-list extended A\n remark == web\n permit ip object-group G any', group_by='== ').platform = 'nxos'  -> ValueError, ACL half converted")
+        else:
+            rep.ok(st.qualname, "nothing between the store of _platform and the conversion loop re-assigns the member list", where=where(st))
+    rep.floor(2, "platform setters that store the platform and convert their members in a loop")
+
+
 def run(ctx: Ctx, rep: Report, tier: str) -> None:
     r02_1(ctx, rep)
     ios_members_unnumbered(ctx, rep)
@@ -475,6 +518,7 @@ def run(ctx: Ctx, rep: Report, tier: str) -> None:
     rep.absorb(sub, "R02.12")
     r02_3(ctx, rep)
     members_not_rebuilt_mid_loop(ctx, rep)
+    members_not_rebuilt_before_conversion(ctx, rep)
     # R02.4 writer keywords belong to the target platform's reader; R02.6 re-typing tests
     from .c01 import classification_guards
     from .c06 import r06_1
